@@ -22,6 +22,7 @@ func propC14(c *Ctx) {
 	c.ruleC14ValidateFirst()
 	c.ruleC14Predicate()
 	c.ruleC14CycleGuard()
+	c.ruleNextDirectiveRecognised("C14-NEXT-DIRECTIVE") // an INCLUDE after an implicit Description must be seen (and so refused, read or reported)
 }
 
 // fsPrimitive reports whether the callee is a path-taking file-system primitive.
